@@ -16,7 +16,8 @@ RULE = ("altitude grid -1400..36000 ft (50 ft quick / 5 ft thorough) + random al
         "altitudes; a case = (clause, inputs); non-trivial unless it is the sea-level standard atmosphere itself")
 MUST_OBSERVE = ["isa_points", "cross_pairs", "station_altitude_exact", "seam_checks", "mono_pressure", "mono_temperature",
                 "mono_humidity_fraction", "mono_humidity_percent", "humidity_equivalence", "humidity_rejected",
-                "vacuum_queries", "nonstandard_station_seam", "history_cases", "isa_points_under_other_preferred_units", "cross_queries_at_sea_level_exactly", "vacuum_humidity_assignments"]
+                "vacuum_queries", "nonstandard_station_seam", "history_cases", "isa_points_under_other_preferred_units", "cross_queries_at_sea_level_exactly", "vacuum_humidity_assignments",
+                "alive_station_sets", "alive_interleaved_queries"]
 ASSUMPTIONS = ["R-ISA: T0 288.15 K, P0 101325 Pa, L 6.5 K/km, g0 9.80665, M 0.0289644, R* 8.31432, gamma 1.4, rho0 1.225 kg/m3",
                "humidity pairs for monotonicity are given in one convention (both fractions in [0,1] or both percents in (1,100])"]
 T0, P0, L, G0, M, R, GAMMA, RHO0 = 288.15, 101325.0, 0.0065, 9.80665, 0.0289644, 8.31432, 1.4, 1.225
@@ -276,9 +277,73 @@ def check_history(ctx, case):
     reset_globals()
 
 
+def _station(spec):
+    if spec["kind"] == "vacuum":
+        return Vacuum(Distance.Foot(spec["alt_ft"]), Temperature.Celsius(spec["t_c"]))
+    if spec["kind"] == "icao":
+        return Atmo.icao(Distance.Foot(spec["alt_ft"]))
+    return Atmo(Distance.Foot(spec["alt_ft"]), Pressure.hPa(spec["p_hpa"]), Temperature.Celsius(spec["t_c"]), spec["rh"])
+
+
+def check_alive(ctx, case):
+    """Several stations alive at once (a session comparing conditions, a calculator per range): what one of them predicts at an
+    altitude depends only on that station.  Each station's answers, taken right after it was built and before the next one
+    exists, are the model; afterwards all stations are asked in turn at the very same altitudes (altitude-major order, twice),
+    and the standard ones are anchored to R-ISA, the vacuum to a density of exactly 0."""
+    reset_globals()
+    ctx.case(case, nontrivial=True, sample=True)
+    ctx.count("alive_station_sets")
+    qs = case["queries"]
+    alone, alive = [], []
+    for spec in case["stations"]:
+        st = _station(spec)
+        alone.append([st.get_density_factor_and_mach_for_altitude(q) for q in qs])
+        alive.append(st)
+    for rnd in (1, 2):
+        for j, q in enumerate(qs):
+            for i, st in (enumerate(alive) if rnd == 1 else reversed(list(enumerate(alive)))):
+                ctx.count("alive_interleaved_queries")
+                got = st.get_density_factor_and_mach_for_altitude(q)
+                spec = case["stations"][i]
+                if got != alone[i][j]:
+                    ctx.violation("alive.answer-depends-on-other-stations",
+                                  f"station #{i} {spec} asked at {q} ft while {len(alive) - 1} other stations are alive and were asked the same: "
+                                  f"{got}; asked right after it was built, before the others existed: {alone[i][j]}", case)
+                    return
+                if spec["kind"] == "vacuum" and got[0] != 0:
+                    ctx.violation("alive.vacuum-density", f"Vacuum asked at {q} ft among other stations: density factor {got[0]!r}", case)
+                    return
+                if spec["kind"] == "icao" and abs(q - spec["alt_ft"]) >= 30.5 and -1400 <= q <= 36000:
+                    _, _, rho, c = isa(q)
+                    if not (rel(got[0] * RHO0, rho) <= REL and rel(got[1] * FT, c) <= REL):
+                        ctx.violation("alive.isa", f"standard station at {spec['alt_ft']} ft asked at {q} ft among other stations: density "
+                                                   f"{got[0] * RHO0!r} kg/m3, speed of sound {got[1] * FT!r} m/s; ISA {rho!r}, {c!r}", case)
+                        return
+    reset_globals()
+
+
+def gen_alive(rng):
+    stations = []
+    for _ in range(rng.choice([2, 3, 4])):
+        k = rng.random()
+        alt = rng.choice([0.0, round(rng.uniform(-1000, 12000), 0)])
+        if k < 0.2:
+            stations.append({"kind": "vacuum", "alt_ft": alt, "t_c": round(rng.uniform(-40, 40), 1)})
+        elif k < 0.5:
+            stations.append({"kind": "icao", "alt_ft": alt})
+        else:
+            stations.append({"kind": "station", "alt_ft": alt, "p_hpa": round(rng.uniform(600, 1050), 1), "t_c": round(rng.uniform(-40, 45), 1),
+                             "rh": rng.choice([0.0, 50.0, 100.0])})
+    rng.shuffle(stations)
+    qs = [rng.choice([0.0, 2000.0, 5000.0, round(rng.uniform(-1000, 30000), 0)]) for _ in range(4)] + [stations[0]["alt_ft"], stations[-1]["alt_ft"] + 100.0]
+    return {"clause": "alive", "stations": stations, "queries": qs}
+
+
 def run(ctx):
     rng = ctx.rng
     reset_globals()
+    for _ in range(ctx.share(300 if ctx.tier == "quick" else 30000)):
+        check_alive(ctx, gen_alive(rng))
     for _ in range(ctx.share(200 if ctx.tier == "quick" else 20000)):
         check_history(ctx, {"clause": "history", "alt_ft": rng.choice([0.0, round(rng.uniform(-1000, 30000), 0)]), "explicit": rng.random() < 0.6,
                             "via": rng.choice(["icao", "standard"]), "humidity": rng.choice([100, 50, 0.8]), "shot": rng.random() < 0.5,
@@ -359,3 +424,5 @@ def replay(ctx, case):
         check_vacuum(ctx, case)
     elif c == "history":
         check_history(ctx, case)
+    elif c == "alive":
+        check_alive(ctx, case)
